@@ -343,6 +343,16 @@ func VerifCheck_icase() {
 		verifReach("nomatch")
 	}
 	verifAssert("invariant-under-text-case", verifEqInts(pos(m1), pos(m2)))
+	// the string entry points (raw-string prefix filters, ASCII ignore-case searches) see the same
+	b1, err := verifREs[0].MatchString(string(t))
+	if err != nil {
+		verifFail("error", err.Error())
+	}
+	b2, err := verifREs[0].MatchString(string(t2))
+	if err != nil {
+		verifFail("error", err.Error())
+	}
+	verifAssert("MatchString-invariant-under-text-case", b1 == b2 && b1 == (m1 != nil))
 	if len(verifREs) > 1 {
 		m3, err := verifREs[1].FindRunesMatch(t)
 		if err != nil {
